@@ -334,7 +334,39 @@ fn invalid_case(ctx: &mut Ctx, case_seed: u64, rs: &RSchema, rng: &mut Rng) {
 						),
 					]);
 				}
-				j = J::Obj(vec![("type".into(), J::s("array")), ("items".into(), inner)]);
+				j = match rng.below(3) {
+					0 => J::Obj(vec![("type".into(), J::s("array")), ("items".into(), inner)]),
+					// the cycle hangs below records that are not part of it
+					1 => J::Obj(vec![
+						("type".into(), J::s("record")),
+						("name".into(), J::s("OuterNotInCycle")),
+						(
+							"fields".into(),
+							J::Arr(vec![
+								J::Obj(vec![("name".into(), J::s("pad")), ("type".into(), J::s("int"))]),
+								J::Obj(vec![("name".into(), J::s("inner")), ("type".into(), inner)]),
+							]),
+						),
+					]),
+					_ => J::Obj(vec![
+						("type".into(), J::s("record")),
+						("name".into(), J::s("Outer1")),
+						(
+							"fields".into(),
+							J::Arr(vec![J::Obj(vec![
+								("name".into(), J::s("mid")),
+								(
+									"type".into(),
+									J::Obj(vec![
+										("type".into(), J::s("record")),
+										("name".into(), J::s("Outer2")),
+										("fields".into(), J::Arr(vec![J::Obj(vec![("name".into(), J::s("inner")), ("type".into(), inner)])])),
+									]),
+								),
+							])]),
+						),
+					]),
+				};
 			}
 			class = "unconditional-cycle";
 		}
